@@ -105,18 +105,18 @@ type c08Batch struct {
 }
 
 type c08Case struct {
-	Variant    string      `json:"variant"`
-	Load       string      `json:"load"` // ast | opl | opl-strict
-	Cfg        *Cfg        `json:"cfg"`
-	OPL        string      `json:"opl,omitempty"`
-	Global     int         `json:"global_max_depth"`
-	BatchLimit int         `json:"max_batch_check_size"`
+	Variant    string `json:"variant"`
+	Load       string `json:"load"` // ast | opl | opl-strict
+	Cfg        *Cfg   `json:"cfg"`
+	OPL        string `json:"opl,omitempty"`
+	Global     int    `json:"global_max_depth"`
+	BatchLimit int    `json:"max_batch_check_size"`
 	// Parallel: limit.batch_check_max_parallelization (0 = not set, default 5); a
 	// function of the index, not of the generator's random stream
-	Parallel int `json:"batch_check_max_parallelization"`
-	Tuples     []string    `json:"tuples"`
-	Probes     []*c08Probe `json:"probes"`
-	Batches    []*c08Batch `json:"batches"`
+	Parallel int         `json:"batch_check_max_parallelization"`
+	Tuples   []string    `json:"tuples"`
+	Probes   []*c08Probe `json:"probes"`
+	Batches  []*c08Batch `json:"batches"`
 	// GRPCSubst: probe index that replaces an entry without subject in the gRPC
 	// rendering of a batch (an unknown-namespace entry)
 	GRPCSubst int `json:"grpc_subst_for_missing_subject"`
